@@ -314,6 +314,13 @@ def column_sweep(ctx):
     form2 = sweep_form()
     form2.settings = dict(form2.settings, id_string="other_id")
     _column_sweep_over(ctx, form2, form2.to_sheets(), only_sheets=("settings",), tag="both-ids")
+    # ... and the entities sheet: an update form (entity_id, update_if), a conditional create (create_if) and a create-or-update form (all three)
+    for k, ent in enumerate(({"dataset": "trees", "entity_id": "${tid}", "update_if": "${tid} != ''", "label": "concat('t ', ${tid})"},
+                             {"dataset": "trees", "create_if": "${tid} = ''", "label": "concat('t ', ${tid})"},
+                             {"dataset": "trees", "entity_id": "${tid}", "create_if": "${tid} = ''", "update_if": "${tid} != ''", "label": "${tid}"})):
+        fe = gen.simple_form([("text", "tid", {"label": "Tree id"}), ("text", "species", {"label": "Species", "save_to": "species"})])
+        fe.entities = ent
+        _column_sweep_over(ctx, fe, fe.to_sheets(), only_sheets=("entities",), tag=f"entities{k}")
 
 
 def _column_sweep_over(ctx, form, sheets, only_sheets=None, tag=""):
@@ -324,8 +331,8 @@ def _column_sweep_over(ctx, form, sheets, only_sheets=None, tag=""):
         return
     n = 0
     for key, known in (("survey", spelling.KNOWN_SURVEY), ("choices", spelling.KNOWN_CHOICES), ("settings", spelling.KNOWN_SETTINGS),
-                       ("external_choices", {"list_name", "name", "label"})):
-        if only_sheets and key not in only_sheets:
+                       ("external_choices", {"list_name", "name", "label"}), ("entities", {"dataset", "list_name", "entity_id", "create_if", "update_if", "label"})):
+        if (only_sheets and key not in only_sheets) or key not in sheets:
             continue
         if tag == "both-ids":
             known = {"form_id", "id_string"}
@@ -353,7 +360,7 @@ def _column_sweep_over(ctx, form, sheets, only_sheets=None, tag=""):
                         ctx.viol(f"{kind}:header-case:{key}", f"column sweep, T={done} ({fmt}): {text}"[:900], _wit(form, done, {}, fmt, ts))
             # every documented alias of the column, alone, also upper-cased
             table = {"survey": spelling.SURVEY_ALIASES, "choices": spelling.CHOICES_ALIASES, "settings": spelling.SETTINGS_ALIASES,
-                     "external_choices": {"list_name": ["list name"], "name": ["value"], "label": ["caption"]}}[key]
+                     "external_choices": {"list_name": ["list name"], "name": ["value"], "label": ["caption"]}, "entities": {"dataset": ["list_name", "list name"]}}[key]
             for alt in table.get(h, ()):
                 for variant in (alt, alt.upper() if "::" not in alt else alt.split("::")[0].upper() + "::" + alt.split("::", 1)[1]):
                     if variant != alt and ":" in alt and "::" not in alt:
